@@ -87,6 +87,8 @@ type eng struct {
 	errCh chan error
 	ev    chan protocol.VerifEvent
 	real  bool
+	// pendingErr: a protocol error taken off errCh while looking for its event
+	pendingErr error
 }
 
 func roleAgency(r protocol.ProtocolRole) agency {
@@ -183,11 +185,34 @@ func (e *eng) awaitTransition() (protocol.VerifEvent, error) {
 			if ev.Kind == "transition" {
 				return ev, nil
 			}
+		case err := <-e.errCh:
+			// A rejected transition emits its event before the error is reported, so
+			// the event (if any) is already queued: look for it before concluding
+			// that the protocol failed without judging the message.
+			for {
+				select {
+				case ev := <-e.ev:
+					if ev.Kind == "transition" {
+						e.pendingErr = err
+						return ev, nil
+					}
+					continue
+				default:
+				}
+				break
+			}
+			return protocol.VerifEvent{}, &protoFailed{err}
 		case <-t.C:
 			return protocol.VerifEvent{}, errStuck
 		}
 	}
 }
+
+// protoFailed: the protocol reported an error without a state-transition verdict
+// for the message (e.g. the codec could not decode it).
+type protoFailed struct{ err error }
+
+func (p *protoFailed) Error() string { return "protocol error without transition: " + p.err.Error() }
 
 // awaitHandled waits until the handler of the message just received returned:
 // true when it succeeded (recv_released event), false with the error when the
@@ -225,6 +250,9 @@ func (e *eng) awaitSent() error {
 
 // awaitError waits for the protocol error that follows a rejected message.
 func (e *eng) awaitError() error {
+	if e.pendingErr != nil {
+		return e.pendingErr
+	}
 	select {
 	case err := <-e.errCh:
 		return err
@@ -248,6 +276,7 @@ type traceResult struct {
 	mismatch *stepVerdict // engine vs prediction
 	cut      string       // non-empty: trace ended early for a reason that is not a verdict
 	terminal bool         // engine reported IsDone() in the predicted terminal state
+	stuck    bool         // a step waited the whole bound (do not repeat many of these)
 }
 
 // driveTrace runs symbols through a fresh engine in lock step. The sender of each
@@ -286,12 +315,23 @@ func driveTrace(b *binding, impl implAuto, role protocol.ProtocolRole, useReal b
 			return res
 		}
 		ev, err := e.awaitTransition()
+		var pf *protoFailed
+		if errors.As(err, &pf) {
+			if useReal {
+				res.cut = "real object stopped: " + pf.Error()
+				return res
+			}
+			return mis(fmt.Sprintf("%s:%s:error-without-verdict", cur, sym),
+				fmt.Sprintf("%s (%s engine): %s sent by the %s side in state %s ended in a protocol error without a state-machine verdict: %v",
+					b.id, roleName(role), sym, ag, cur, pf.err))
+		}
 		if err != nil && useReal {
 			// a real object may have moved on by itself (auto-reply); not a verdict
 			res.cut = "real object did not process the message (state changed autonomously?)"
 			return res
 		}
 		if err != nil {
+			res.stuck = true
 			return mis(fmt.Sprintf("%s:%s:stuck", cur, sym),
 				fmt.Sprintf("%s (%v engine): %s sent by the %s side in state %s (agency %s per the state map) was not processed within %v",
 					b.id, role, sym, ag, cur, ag, stepWait))
